@@ -379,6 +379,26 @@ def parse_kani(out):
     return res
 
 
+def _run_locked(cmd, cwd, env, timeout, tgt):
+    """run cargo-kani holding an exclusive lock on the shared target directory (two kani drivers post-processing the same goto
+    binaries at once corrupt each other's files: goto-instrument was seen growing without bound); on timeout the whole process group goes"""
+    import fcntl, signal
+    os.makedirs(tgt, exist_ok=True)
+    with open(tgt + '.lock', 'w') as lk:
+        fcntl.flock(lk, fcntl.LOCK_EX)
+        p = subprocess.Popen(cmd, cwd=cwd, env=env, stdout=subprocess.PIPE, stderr=subprocess.PIPE, text=True, start_new_session=True)
+        try:
+            o, e = p.communicate(timeout=timeout)
+        except subprocess.TimeoutExpired:
+            try:
+                os.killpg(p.pid, signal.SIGKILL)
+            except ProcessLookupError:
+                pass
+            p.communicate()
+            raise
+        return subprocess.CompletedProcess(cmd, p.returncode, o, e)
+
+
 def run(workdir, tier, seed):
     t0 = time.time()
     res = {'unit': 'kint', 'backend': 'kani/cbmc', 'status': 'pass', 'failed': [], 'assumptions': [], 'bounded': False}
@@ -394,7 +414,7 @@ def run(workdir, tier, seed):
     cmd = ['cargo', 'kani', '-Z', 'function-contracts', '-Z', 'stubbing', '--target-dir', tgt, '-j', '8', '--output-format', 'terse']
     env = dict(os.environ, CARGO_NET_OFFLINE='true')
     try:
-        pr = subprocess.run(cmd, cwd=crate, capture_output=True, text=True, timeout=1500, env=env)
+        pr = _run_locked(cmd, crate, env, 900, tgt)
     except subprocess.TimeoutExpired:
         res.update(status='undecided', reason='kani timed out')
         return res
@@ -422,8 +442,8 @@ def run(workdir, tier, seed):
     for h in expected:
         if hs[h]['status'] != 'SUCCESSFUL':
             try:
-                pr1 = subprocess.run(['cargo', 'kani', '-Z', 'function-contracts', '-Z', 'stubbing', '--target-dir', tgt, '--output-format', 'terse', '--harness', h],
-                                     cwd=crate, capture_output=True, text=True, timeout=1200, env=env)
+                pr1 = _run_locked(['cargo', 'kani', '-Z', 'function-contracts', '-Z', 'stubbing', '--target-dir', tgt, '--output-format', 'terse', '--harness', h],
+                                  crate, env, 900, tgt)
                 one = parse_kani(pr1.stdout + '\n' + pr1.stderr).get(h)
                 if one and one.get('status'):
                     res.setdefault('reconfirmed', {})[h] = {'parallel': hs[h]['status'], 'alone': one['status']}
